@@ -122,10 +122,6 @@ theorem C19_cascade_admissible (bs : Nat) (desc : Slot → List Slot)
 
 /-! ### non-vacuity: concrete reachable states that meet the hypotheses -/
 
-/-- every state reached by `Alloc` from a reachable state is reachable -/
-theorem reachable_alloc (h : Reachable bs s) : Reachable bs (alloc bs s).1 :=
-  h.step .alloc rfl
-
 example : Reachable 2 init := ⟨[], rfl⟩
 
 /-- a reachable state with a live slot that can be freed, and room left in its block -/
